@@ -28,7 +28,8 @@ def subimage(ctx, det, center, shape):
 
 @op('points_from_grid')
 def points_from_grid(ctx, det, perm_seed, k=None, optics_from=True,
-                     tilt=None, only=None, spread=None, as_float=False):
+                     tilt=None, only=None, spread=None, as_float=False,
+                     sph_about=None):
     """detector_points listing (a subset of) the grid's coordinates in a
     seeded permutation (local RandomState)."""
     import holopy as hp
@@ -56,7 +57,17 @@ def points_from_grid(ctx, det, perm_seed, k=None, optics_from=True,
     if only is not None:
         sel = [i % len(xo) for i in only]
         xo, yo, zz = xo[sel], yo[sel], zz[sel]
-    pts = hp.detector_points(x=xo, y=yo, z=zz, name=d.name)
+    if sph_about is not None:
+        # the same locations written as (r, theta, phi) about a particle at
+        # ``sph_about`` (z towards the detector counts negative, as in the
+        # Cartesian route)
+        dx, dy, dz = xo - sph_about[0], yo - sph_about[1], sph_about[2] - zz
+        rr = np.sqrt(dx * dx + dy * dy + dz * dz)
+        pts = hp.detector_points(r=rr, theta=np.arctan2(np.hypot(dx, dy), dz),
+                                 phi=np.arctan2(dy, dx) % (2 * np.pi),
+                                 name=d.name)
+    else:
+        pts = hp.detector_points(x=xo, y=yo, z=zz, name=d.name)
     if optics_from:
         kw = {a: d.attrs.get(a) for a in
               ('medium_index', 'illum_wavelen', 'illum_polarization',
